@@ -49,6 +49,10 @@ def plan(tier, seed):
         for k in range(slow_each):
             jobs.append({"mode": "seed", "seed": seed * 1000003 + i, "klass": "slow", "method": m, "timeout": 400})
             i += 1
+    for m in SLOW[:4] + (VERY_SLOW if tier != "quick" else VERY_SLOW[:1]):
+        for k in range(1 if tier == "quick" else 25):
+            jobs.append({"mode": "seed", "seed": seed * 1000003 + i, "klass": "slow", "method": m, "timeout": 400, "cap": 1 + (i % 2)})
+            i += 1
     for m in VERY_SLOW:
         for k in range(vslow):
             jobs.append({"mode": "seed", "seed": seed * 1000003 + i, "klass": "slow", "method": m, "timeout": 900})
@@ -131,7 +135,13 @@ def generate(job):
     ops = []
     if slow:
         ops.append({"k": "fit", "method": job["method"], "maxiter": 3, "grad_scale": 1.0})
-        if ro.chance(0.5):
+        if job.get("cap") and job["method"] != "iminuit":
+            # the Newton-type minimiser hits its iteration limit (stopped early, success = False), the result is
+            # saved and the fit continued on the restarted model
+            ops[0]["cap"] = job["cap"]
+            ops.append({"k": "save_restart", "how": "save_as"})
+            ops.append({"k": "fit", "method": job["method"], "maxiter": 3, "grad_scale": 1.0, "cap": job["cap"]})
+        elif ro.chance(0.5):
             ops.append({"k": "save_restart", "how": ro.choice(["save_as", "save_params"])})
     else:
         n = ro.randint(2, 4)
@@ -413,7 +423,15 @@ class Session:
             if op.get("check_grad"):
                 kw["check_grad"] = True  # the gradient is compared with finite differences after the minimisation
                 mkey = mkey + "(check_grad)"
-            res = config.fit(self.data, self.phsp, method=method, maxiter=op.get("maxiter"), grad_scale=op.get("grad_scale", 1.0), batch=self.spec["batch"], print_init_nll=False, **kw)
+            import contextlib
+
+            from sim.seams import iteration_cap
+
+            cap = iteration_cap(op["cap"]) if op.get("cap") else contextlib.nullcontext()
+            if op.get("cap"):
+                log.count("fault.minimiser_iteration_limit")
+            with cap:
+                res = config.fit(self.data, self.phsp, method=method, maxiter=op.get("maxiter"), grad_scale=op.get("grad_scale", 1.0), batch=self.spec["batch"], print_init_nll=False, **kw)
         except Exception as e:
             import traceback
 
@@ -534,7 +552,11 @@ class Session:
             cur = {kk: float(v) for kk, v in config.get_params().items()}
             if any(cur.get(n) != float(v) for n, v in dict(self.last_result.params).items()):
                 return
-            self.last_result.save_as(fn)
+            try:
+                self.last_result.save_as(fn)
+            except Exception as e:
+                log.fail("reload", "restart|save_as|raised|%s" % type(e).__name__, "FitResult.save_as raised %s: %s (success=%r of type %s)" % (type(e).__name__, str(e)[:200], self.last_result.success, type(self.last_result.success).__name__), step=i)
+                return "stop"
         else:
             config.save_params(fn)
         saved = {kk: float(v) for kk, v in config.get_params().items()}
